@@ -30,6 +30,7 @@ type W2Opt struct {
 	OptPct      int
 	UpdFromRule bool
 	BigPools    bool // a few runs use pools of 33-70 instances
+	Prelude     bool // in some runs the pool goes through a management history that ends in the initial set before the clients start
 	Restore     bool // the root task re-installs the initial text before the final probe round (C17 with admins)
 	Scripted    bool // C16: a single task alternates operations, queries and probe rounds
 	Oracle      func(w *W2Run) []Violation
@@ -221,6 +222,8 @@ type W2Run struct {
 	NilTag   map[int]bool
 	InitErr  error
 	RestoreErr string
+	Prelude    int    // 0 = none
+	PreludeErr string // the prelude did not go through: the run is not judged
 	NAdmins  int
 }
 
@@ -429,6 +432,9 @@ func RunW2(opt *W2Opt, plan, sched *simrt.Source, trace bool) *RunOut {
 	if opt.Admins > 0 {
 		nAdmins = g.Intn(opt.Admins + 1)
 	}
+	if opt.Prelude && nAdmins == 0 && g.Pct(25) {
+		w.Prelude = 1 + g.Intn(5)
+	}
 	w.Ops = make([][]*MgmtOp, nAdmins)
 	for ai := range w.Ops {
 		n := g.Intn(deep(opt.MaxMgmt, 1) + 1)
@@ -598,6 +604,43 @@ func RunW2(opt *W2Opt, plan, sched *simrt.Source, trace bool) *RunOut {
 			w.InitErr = err
 			return
 		}
+		if w.Prelude != 0 {
+			// a management history that leaves exactly the initial set installed
+			func() {
+				defer func() {
+					if e := recover(); e != nil {
+						w.PreludeErr = fmt.Sprint(e)
+					}
+				}()
+				var names []string
+				for _, r := range rules {
+					names = append(names, strconv.Itoa(r.ID))
+				}
+				var e error
+				switch w.Prelude {
+				case 1:
+					pool.ClearPoolRules()
+					e = pool.UpdatePooledRules(text)
+				case 2:
+					pool.ClearPoolRules()
+					e = pool.UpdatePooledRulesIncremental(text)
+				case 3:
+					e = pool.UpdatePooledRules(text)
+				case 4:
+					if e = pool.RemoveRules(names); e == nil {
+						e = pool.UpdatePooledRulesIncremental(text)
+					}
+				case 5:
+					if e = pool.UpdatePooledRulesIncremental(text); e == nil {
+						e = pool.SetExecModel(em)
+					}
+				}
+				if e != nil {
+					w.PreludeErr = e.Error()
+				}
+			}()
+			simrt.Emit(EvProbe, 0, 3, int64(w.Prelude))
+		}
 		var wg sync.WaitGroup
 		for ai := 0; ai < nAdmins; ai++ {
 			ai := ai
@@ -689,7 +732,13 @@ func RunW2(opt *W2Opt, plan, sched *simrt.Source, trace bool) *RunOut {
 	w.Run = run
 	w.Views = BuildViews(run, sc.Calls)
 	var all []Violation
-	if opt.Oracle != nil {
+	if w.Prelude != 0 {
+		o.count("probe/management_prelude", 1)
+	}
+	if w.PreludeErr != "" {
+		// the pool is not in the state the request oracles assume; what went wrong is C16's business
+		o.count("probe/management_prelude_failed", 1)
+	} else if opt.Oracle != nil {
 		all = append(all, opt.Oracle(w)...)
 	}
 	fl, fm := inFlightCalls(w.Views)
